@@ -383,6 +383,27 @@ theorem C10_breaks_mergeOlderEntry :
     (imported Defects.none siteB8 siteA8).toBool = true ∧
     (imported Defects.none siteA8' siteB8).toBool = false := by decide
 
+/-- concurrent edits: B (key 2, which imported the room) disables admin 1 at date 2; A (key 1), not knowing, grants
+    a right at date 3; A then merges B's version -/
+def m9b : MutSpec := { rid := 0, isNew := false, date := 2, admins := [(1, false)], groups := [] }
+def m9a : MutSpec :=
+  { rid := 0, isNew := false, date := 3, admins := [],
+    groups := [{ gid := 0, isNew := false, rights := [(2, true, true)], users := [], userAdmins := [] }] }
+def siteB9 : Site := match (importedSite Defects.none site1).mutate 2 200 m9b with | .ok s => s | .error _ => Site.empty
+def siteA9 : Site := match site1.mutate 1 100 m9a with | .ok s => s | .error _ => Site.empty
+def siteA9' : Site := match imported Defects.none siteB9 siteA9 with | .ok s => s | .error _ => Site.empty
+
+/-- **C10_breaks_authorDisabledConcurrently.** `prepare_room_with_history` checks the NEW entries of a candidate
+    against the merged history but never re-checks the entries the importer already holds: A accepts B's version
+    (admin 1 disabled from date 2) and keeps its own right entry of date 3 signed by key 1; from then on no
+    instance that does not already hold that entry can import A's definition (`prepare_new_room` /
+    `prepare_room_with_history` refuse the entry: its author is not admin at its date) — neither a fresh peer nor
+    B. No switch removes this. (Replayed on the real code: corpus/C10/author-disabled-concurrently.ops.) -/
+theorem C10_breaks_authorDisabledConcurrently :
+    (imported Defects.none siteB9 siteA9).toBool = true ∧
+    (imported Defects.none siteA9' Site.empty).toBool = false ∧
+    (imported Defects.none siteA9' siteB9).toBool = false := by decide
+
 /-- at date 1 (the date of the creation) key 1 disables admin 2: two entries of key 2 with one date -/
 def m6 : MutSpec := { rid := 0, isNew := false, date := 1, admins := [(2, false)], groups := [] }
 def site6 : Site := match site1.mutate 1 (0 + m1.size) m6 with | .ok s => s | .error _ => Site.empty
